@@ -21,7 +21,7 @@ for name in sorted(os.listdir(S)):
     n = notes.get(name, {})
     rows.append('| %s | %s | %s | %s | %s | %s |' % (
         name, ', '.join(f.split('/')[-1] for f in m['files']), m['summary'].split('. ')[0][:150].replace('|', '/'),
-        n.get('first_pass', 'caught (quick)'), '%s tier: %s' % (t, how), n.get('strengthened', '')))
+        n.get('first_pass', 'caught (quick)'), ('RETIRED: ' + m['retired'][:160]) if m.get('retired') else '%s tier: %s' % (t, how), n.get('strengthened', '')))
 out = ['# Seeded changes', '',
        'Each directory holds `patch.diff` (against `/repo`), `demo.py` (exits 0 on the unchanged tree, 1 with the change),',
        '`meta.json` (property, what the change does, what it needs to show, how it was confirmed) and `result.json`',
